@@ -2,8 +2,9 @@
 # Re-runs the own-property quick check against every stored seeded change (scratch copies; /repo untouched). One line per change.
 # usage: tools/run_seeded_all.sh [seed]
 seed=${1:-1}
-for d in /verif/seeded/*/; do
+here=$(cd "$(dirname "$0")/.." && pwd)
+for d in $here/seeded/*/; do
   n=$(basename $d)
-  nice -n 5 /venv/bin/python /verif/tools/run_seeded.py $n --seed $seed 2>&1 | tail -1 | cut -c1-220
+  nice -n 5 /venv/bin/python $here/tools/run_seeded.py $n --seed $seed 2>&1 | tail -1 | cut -c1-220
 done
 echo "=== done $(date +%H:%M:%S)"
